@@ -457,6 +457,9 @@ class Solver(object):
         # integrate with.
         self.dt = self._get_timestep()
 
+        # The first step must not go past a requested output time either.
+        self._land_on_output_time()
+
         while (self.tf - self.t) > self._epsilon and \
               (self.count < self.max_steps):
 
@@ -708,32 +711,33 @@ class Solver(object):
         # Consider the other cases if user has requested output at a specified
         # time.
 
-        output_at_times = self.output_at_times
-        dt = self.dt
-
-        # adjust dt to land on specific output times or dump output if we have
-        # reached a desired time.
-        if len(output_at_times) > 0:
-            tdiff = output_at_times - self.t
-
+        if len(self.output_at_times) > 0:
+            tdiff = self.output_at_times - self.t
             if numpy.any(numpy.abs(tdiff) < self._epsilon):
                 dump = True
 
-            # Our next step may exceed a required timestep so we adjust the
-            # timestep.
-            # Times within epsilon of the current time have been reached
-            # (stepping to them would need a ridiculously small dt).
-            timestep_too_big = (tdiff > self._epsilon) & (tdiff < dt)
-            if numpy.any(timestep_too_big):
-                # Compute the new time-step to fall on the first such output
-                # time instant and save the previous dt value.
-                index = numpy.where(timestep_too_big)[0][0]
-                self._prev_dt = dt
-                self.dt = float(output_at_times[index] - self.t)
+        # Note: this may adjust dt to land at a desired time.
+        self._land_on_output_time()
 
         if dump:
             self.dump_output()
             self.barrier()
+
+    def _land_on_output_time(self):
+        """Shorten `dt` so the next step lands on the first requested output
+        time it would otherwise go past; the nominal dt is kept in `_prev_dt`.
+        """
+        output_at_times = self.output_at_times
+        dt = self.dt
+        if len(output_at_times) > 0:
+            tdiff = output_at_times - self.t
+            # Times within epsilon of the current time have been reached
+            # (stepping to them would need a ridiculously small dt).
+            timestep_too_big = (tdiff > self._epsilon) & (tdiff < dt)
+            if numpy.any(timestep_too_big):
+                index = numpy.where(timestep_too_big)[0][0]
+                self._prev_dt = dt
+                self.dt = float(output_at_times[index] - self.t)
 
     def _get_solver_data(self):
         if self._prev_dt is not None:
